@@ -543,6 +543,35 @@ def offer (cfg : Cfg) (b64 : String → Bool) (env : Env) (subs : List Sub) (s :
   | .err e => (s, .err e)
   | .panic p => (s, .panic p)
 
+/-! ### the other entry points that feed `Add` / the payload store (transport/v2) -/
+
+structure Item where
+  tx : Tx
+  payload : Option Nat
+  deriving DecidableEq, Repr
+
+/-- `handleTransactionList` once every transaction of the message parsed (one parse error refuses the whole message):
+    in list order; a public transaction must come with its payload; the list stops at the first error (a missing prev
+    ends it quietly, the peer is sent our state); what was added before stays. -/
+def handleList (env : Env) (subs : List Sub) : St → List Item → St × String
+  | s, [] => (s, "ok")
+  | s, it :: rest =>
+    if it.tx.pal.isEmpty && it.payload.isNone then (s, "err:no-payload")
+    else match add env subs s it.tx it.payload with
+      | (s', .ok _) => handleList env subs s' rest
+      | (s', .err e) => if e = "prev-missing" then (s', "ok:missing-prevs") else (s', "err:" ++ e)
+      | (s', .panic p) => (s', "panic:" ++ p)
+
+/-- `handleTransactionPayload` + `state.WritePayload`: a payload arriving after its (private) transaction -/
+def latePayload (env : Env) (subs : List Sub) (s : St) (ref : Nat) (p : Nat) : St × String :=
+  match s.find ref with
+  | none => (s, "err:unknown-tx")
+  | some tx =>
+    if env.sha p ≠ tx.payloadHash then (s, "err:payload-mismatch")
+    else
+      let jl := notify subs .payload tx (saveEvent subs .payload tx s.jobs, s.ledger)
+      ({ s with payloads := putPayload s.payloads tx.payloadHash (some p), jobs := jl.1, ledger := jl.2 }, "ok")
+
 /-! ### concurrency: threads executing Add, interleaved at read-tx / write-tx granularity -/
 
 inductive PC where
@@ -610,6 +639,12 @@ def createFrom (s : St) (prevs : List Nat) : Res (List Nat × Nat) :=
     | .ok c => .ok (dedup prevs [], c + 1)
     | .err e => .err e
     | .panic p => .panic p
+
+/-- `CreateTransaction` first asserts that every additional prev is present together with its payload -/
+def additionalOK (s : St) (additional : List Nat) : Bool :=
+  additional.all fun r => match s.find r with
+    | some t => s.payloads.any (fun q => q.1 = t.payloadHash)
+    | none => false
 
 /-- prevs and clock chosen by `CreateTransaction` (head first, then the additional prevs) -/
 def createPrevsClock (s : St) (additional : List Nat) : Res (List Nat × Nat) :=
